@@ -459,6 +459,10 @@ class Gen:
         self.definition(k, "def0")
         for i in range(1, 1 + self.count("ndefs")):
             k = self.c.pick(kinds, f"def{i}.kind", cost=0)
+            if k == "shorthand" and self.out and self.out[-1][1] != "}":
+                # the grammar reads "{" after a body-less definition (type T, enum E, extend schema @d ...) as that
+                # definition's body: a shorthand query cannot be written there; use the keyword form
+                k = "query"
             self.definition(k, f"def{i}")
         return self.out
 
